@@ -1,2 +1,228 @@
-(* Proofs/RegionsProofsC.v *)
+(* Proofs/RegionsProofsC.v — the active set after a prefix of the sorted events is
+   the set of covering intervals; the C16 lemmas. *)
+From Coq Require Import Sorting.Permutation Sorting.Sorted.
 From Bio Require Import Base.
+From Bio.Model Require Import Regions.
+From Bio.Spec Require Import RegionsSpec.
+From Bio.Proofs Require Import RegionsProofs RegionsProofsB.
+Open Scope Z_scope.
+
+(* ---------------- membership after a run of events ---------------- *)
+
+Lemma apply_events_status y evs : forall idxs b,
+  (In y idxs <-> b = true) ->
+  (In y (apply_events evs idxs) <-> status y evs b = true).
+Proof.
+  unfold apply_events.
+  induction evs as [|e r IH]; intros idxs b H; cbn [fold_left status]; [exact H|].
+  apply IH. unfold step_set.
+  destruct (e_start e).
+  - rewrite set_add_In. destruct (Nat.eqb_spec (e_idx e) y); intuition congruence.
+  - rewrite set_remove_In. destruct (Nat.eqb_spec (e_idx e) y); intuition congruence.
+Qed.
+
+Lemma status_filter_idx y evs : forall b,
+  status y evs b = status y (filter (fun e => (e_idx e =? y)%nat) evs) b.
+Proof.
+  induction evs as [|e r IH]; intros b; cbn [status filter]; [reflexivity|].
+  destruct (e_idx e =? y)%nat eqn:E; cbn [status]; rewrite ?E; apply IH.
+Qed.
+
+(* ---------------- the events of one interval ---------------- *)
+
+Lemma events_from_idx_ge starts : forall ends i,
+  Forall (fun e => (i <= e_idx e)%nat) (events_from i starts ends).
+Proof.
+  induction starts as [|s ss IH]; intros ends i; cbn [events_from]; [constructor|].
+  destruct ends as [|e es]; [constructor|].
+  assert (T : Forall (fun ev => (i <= e_idx ev)%nat) (events_from (S i) ss es)).
+  { eapply Forall_impl; [|apply IH]. cbn. intros; lia. }
+  destruct (s >=? e); [exact T|].
+  constructor; [cbn; lia|]. constructor; [cbn; lia|exact T].
+Qed.
+
+Lemma events_from_filter_idx starts : forall ends i k,
+  length starts = length ends ->
+  filter (fun e => (e_idx e =? i + k)%nat) (events_from i starts ends) =
+  if (k <? length starts)%nat && (nth k starts 0 <? nth k ends 0)
+  then [Ev (i + k) (nth k starts 0) true; Ev (i + k) (nth k ends 0) false]
+  else [].
+Proof.
+  induction starts as [|s ss IH]; intros ends i k L; cbn [events_from].
+  - reflexivity.
+  - destruct ends as [|e es]; [discriminate|]. cbn [length] in L.
+    destruct k as [|k].
+    + rewrite Nat.add_0_r. cbn [nth length].
+      assert (T : filter (fun ev => (e_idx ev =? i)%nat) (events_from (S i) ss es) = []).
+      { apply filter_none. eapply Forall_impl; [|apply events_from_idx_ge].
+        cbn. intros ev H. apply Nat.eqb_neq. lia. }
+      replace (0 <? S (length ss))%nat with true by reflexivity. cbn [andb].
+      destruct (Z.geb_spec s e); destruct (Z.ltb_spec s e); try lia.
+      * exact T.
+      * cbn [filter e_idx]. rewrite Nat.eqb_refl, T. reflexivity.
+    + cbn [nth length].
+      replace (S k <? S (length ss))%nat with (k <? length ss)%nat by reflexivity.
+      replace (i + S k)%nat with (S i + k)%nat by lia.
+      rewrite <- (IH es (S i) k) by lia.
+      destruct (s >=? e); [reflexivity|].
+      cbn [filter e_idx].
+      replace (i =? S i + k)%nat with false by (symmetry; apply Nat.eqb_neq; lia).
+      reflexivity.
+Qed.
+
+Lemma events_filter_idx starts ends y :
+  length starts = length ends ->
+  filter (fun e => (e_idx e =? y)%nat) (events starts ends) =
+  if (y <? length starts)%nat && (nth y starts 0 <? nth y ends 0)
+  then [Ev y (nth y starts 0) true; Ev y (nth y ends 0) false]
+  else [].
+Proof. intros L. exact (events_from_filter_idx starts ends 0 y L). Qed.
+
+(* in any list that satisfies the sort contract, the events of interval y are its
+   start followed by its end *)
+Lemma sorted_filter_idx starts ends evs y :
+  length starts = length ends ->
+  Permutation evs (events starts ends) -> sorted_events evs ->
+  filter (fun e => (e_idx e =? y)%nat) evs =
+  if (y <? length starts)%nat && (nth y starts 0 <? nth y ends 0)
+  then [Ev y (nth y starts 0) true; Ev y (nth y ends 0) false]
+  else [].
+Proof.
+  intros L P S.
+  pose proof (filter_perm (fun e => (e_idx e =? y)%nat) _ _ P) as P'.
+  pose proof (filter_sorted ev_le (fun e => (e_idx e =? y)%nat) evs S) as S'.
+  rewrite (events_filter_idx starts ends y L) in P'.
+  destruct ((y <? length starts)%nat && (nth y starts 0 <? nth y ends 0)) eqn:C.
+  - apply sorted_perm_unique; [exact S'| |exact P'].
+    apply andb_prop in C. destruct C as [_ C]. apply Z.ltb_lt in C.
+    constructor; [repeat constructor|]. constructor; [|constructor].
+    unfold ev_le, event_less. cbn [e_pos e_start e_idx].
+    destruct (Z.eqb_spec (nth y ends 0) (nth y starts 0)); [lia|]. cbn [negb].
+    apply Z.ltb_ge. lia.
+  - now apply Permutation_nil, Permutation_sym.
+Qed.
+
+(* the sweep invariant: after all events with position <= x, interval y is active
+   iff it covers x *)
+Lemma status_prefix starts ends evs x y :
+  length starts = length ends ->
+  Permutation evs (events starts ends) -> sorted_events evs ->
+  status y (filter (fun e => e_pos e <=? x) evs) false =
+  (y <? length starts)%nat && covers starts ends x y.
+Proof.
+  intros L P S.
+  rewrite status_filter_idx, filter_comm, (sorted_filter_idx starts ends evs y L P S).
+  unfold covers.
+  destruct (Nat.ltb_spec y (length starts)); cbn [andb]; [|reflexivity].
+  destruct (Z.ltb_spec (nth y starts 0) (nth y ends 0)).
+  - cbn [filter e_pos].
+    destruct (Z.leb_spec (nth y starts 0) x); destruct (Z.leb_spec (nth y ends 0) x);
+      destruct (Z.ltb_spec x (nth y ends 0)); try lia;
+      cbn [status e_idx e_start filter andb]; rewrite ?Nat.eqb_refl; reflexivity.
+  - cbn [filter status].
+    destruct (Z.leb_spec (nth y starts 0) x); destruct (Z.ltb_spec x (nth y ends 0));
+      try lia; reflexivity.
+Qed.
+
+Lemma covering_asc starts ends x : asc (covering starts ends x).
+Proof. unfold covering. apply filter_sorted, seq_asc. Qed.
+
+Lemma active_prefix starts ends evs x :
+  length starts = length ends ->
+  Permutation evs (events starts ends) -> sorted_events evs ->
+  apply_events (filter (fun e => e_pos e <=? x) evs) [] = covering starts ends x.
+Proof.
+  intros L P S. apply asc_ext.
+  - apply apply_events_asc. constructor.
+  - apply covering_asc.
+  - intros y.
+    rewrite (apply_events_status y _ [] false) by (cbn; intuition discriminate).
+    rewrite (status_prefix starts ends evs x y L P S).
+    unfold covering. rewrite filter_In, in_seq, andb_true_iff, Nat.ltb_lt. intuition lia.
+Qed.
+
+(* ---------------- the C16 lemmas ---------------- *)
+
+(* for every event order that sort.Slice may legally produce *)
+Lemma at_exact_any_sort starts ends evs x :
+  length starts = length ends ->
+  Permutation evs (events starts ends) -> sorted_events evs ->
+  at_ (breakpoints evs) x = Ok (covering starts ends x).
+Proof.
+  intros L P S. pose proof (sorted_events_pos evs S) as PS.
+  rewrite at_lookup by now apply breakpoints_sorted.
+  rewrite breakpoints_lookup by exact PS.
+  f_equal. now apply active_prefix.
+Qed.
+
+Lemma new_index_ok starts ends :
+  length starts = length ends ->
+  new_index starts ends = Ok (breakpoints (sort_events (events starts ends))).
+Proof. intros L. unfold new_index. now rewrite L, Nat.eqb_refl. Qed.
+
+Lemma at_exact starts ends :
+  length starts = length ends ->
+  exists ix, new_index starts ends = Ok ix /\
+             forall x, at_ ix x = Ok (covering starts ends x).
+Proof.
+  intros L. eexists. split; [now apply new_index_ok|].
+  intros x. apply at_exact_any_sort; [exact L|apply sort_events_perm|apply sort_events_sorted].
+Qed.
+
+Lemma breakpoints_strictly_sorted starts ends ix :
+  new_index starts ends = Ok ix -> strictly_ascending (map fst ix).
+Proof.
+  unfold new_index. destruct (length starts =? length ends)%nat; [|discriminate].
+  intros H. inversion H; subst.
+  apply breakpoints_sorted, sorted_events_pos, sort_events_sorted.
+Qed.
+
+Lemma new_index_panics_iff starts ends :
+  new_index starts ends = Panic <-> length starts <> length ends.
+Proof.
+  unfold new_index. destruct (Nat.eqb_spec (length starts) (length ends)); split; intros H;
+    try discriminate; try reflexivity; try contradiction; try assumption.
+Qed.
+
+Lemma new_index_never_errs starts ends : new_index starts ends <> Err.
+Proof. unfold new_index. now destruct (length starts =? length ends)%nat. Qed.
+
+Lemma all_ok_map {A B} (f : A -> outcome B) (g : A -> B) l :
+  (forall a, f a = Ok (g a)) -> all_ok (map f l) = Ok (map g l).
+Proof.
+  intros H. induction l as [|a r IH]; cbn [map all_ok]; [reflexivity|].
+  now rewrite H, IH.
+Qed.
+
+Lemma regions_at_exact starts ends queries :
+  length starts = length ends ->
+  regions_at starts ends queries = Ok (map (covering starts ends) queries).
+Proof.
+  intros L. unfold regions_at.
+  destruct (at_exact starts ends L) as (ix & -> & H). cbn [obind].
+  now apply all_ok_map.
+Qed.
+
+Lemma regions_at_panics_iff starts ends queries :
+  regions_at starts ends queries = Panic <-> length starts <> length ends.
+Proof.
+  split.
+  - intros H L. rewrite (regions_at_exact _ _ _ L) in H. discriminate.
+  - intros H. unfold regions_at. apply new_index_panics_iff in H. now rewrite H.
+Qed.
+
+(* members of the answer, spelled out *)
+Lemma covering_In starts ends x y :
+  length starts = length ends ->
+  (In y (covering starts ends x) <->
+   (y < length starts)%nat /\ nth y starts 0 <= x < nth y ends 0).
+Proof.
+  intros _. unfold covering, covers.
+  rewrite filter_In, in_seq, andb_true_iff, Z.leb_le, Z.ltb_lt. intuition lia.
+Qed.
+
+Lemma covering_skips_empty starts ends x y :
+  nth y ends 0 <= nth y starts 0 -> ~ In y (covering starts ends x).
+Proof.
+  unfold covering, covers. rewrite filter_In, andb_true_iff, Z.leb_le, Z.ltb_lt. lia.
+Qed.
